@@ -252,6 +252,13 @@ func getPlacement(start, end pr.GridLine, lines []pr.GridNames) placement {
 	return placement{coord.i, size}
 }
 
+// clampedTracks returns tracks[start:end], with both bounds clamped to the existing tracks
+func clampedTracks(tracks [][2]pr.Float, start, end int) [][2]pr.Float {
+	start = utils.MaxInt(0, utils.MinInt(start, len(tracks)))
+	end = utils.MaxInt(start, utils.MinInt(end, len(tracks)))
+	return tracks[start:end]
+}
+
 func getSpan(place pr.GridLine) int {
 	// TODO: Handle lines.
 	span := 1
@@ -524,8 +531,8 @@ func resolveTracksSizes(context *layoutContext, sizingFunctions [][2]pr.DimOrS, 
 			for _, child := range children {
 				pos := childrenPositions[child]
 				x, _, width, _ := pos.unpack()
-				// a span may extend after the last track
-				widthF := sum0(orthogonalSizes[utils.MinInt(x, len(orthogonalSizes)):utils.MinInt(x+width, len(orthogonalSizes))])
+				// a span may extend before the first track or after the last one
+				widthF := sum0(clampedTracks(orthogonalSizes, x, x+width))
 				child = bo.Deepcopy(child)
 				child.Box().PositionX = 0
 				child.Box().PositionY = 0
@@ -1505,12 +1512,14 @@ func gridLayout(context *layoutContext, box_ Box, bottomSpace pr.Float, skipStac
 		}
 		child = bo.Deepcopy(child)
 		childB := child.Box()
-		childB.PositionX = columnsPositions[x]
-		childB.PositionY = rowsPositions[y] - skipHeight
+		// items placed before the first explicit line have negative
+		// coordinates (the Python lists wrap around) : use the nearest track
+		childB.PositionX = columnsPositions[utils.MaxInt(0, utils.MinInt(x, len(columnsPositions)-1))]
+		childB.PositionY = rowsPositions[utils.MaxInt(0, utils.MinInt(y, len(rowsPositions)-1))] - skipHeight
 		cbW, cbH := box.ContainingBlock()
 		resolvePercentages(child, bo.MaybePoint{cbW, cbH}, 0)
-		widthF := (sum0(columnsSizes[utils.MinInt(x, len(columnsSizes)):utils.MinInt(x+width, len(columnsSizes))]) + pr.Float(width-1)*columnGap)
-		heightF := (sum0(rowsSizes[y:utils.MinInt(y+height, len(rowsSizes))]) + pr.Float(height-1)*rowGap)
+		widthF := (sum0(clampedTracks(columnsSizes, x, x+width)) + pr.Float(width-1)*columnGap)
+		heightF := (sum0(clampedTracks(rowsSizes, y, y+height)) + pr.Float(height-1)*rowGap)
 		childWidth := widthF - (childB.MarginLeft.V() + childB.BorderLeftWidth + childB.PaddingLeft.V() +
 			childB.MarginRight.V() + childB.BorderRightWidth + childB.PaddingRight.V())
 		childHeight := heightF - (childB.MarginTop.V() + childB.BorderTopWidth + childB.PaddingTop.V() +
